@@ -290,6 +290,16 @@ class Check:
             try:
                 r = check(case)
             except Exception as ex:
+                # an exception that comes out of the library under test in a step the check needs (it succeeds on the unchanged tree) is a failure of the
+                # library on an input the property quantifies over, not of the harness: reported as a violation with the case; anything else is a checker fault
+                frames = traceback.extract_tb(ex.__traceback__)
+                if any('/stix2/' in f.filename.replace('\\', '/') and '/verif/' not in f.filename for f in frames):
+                    found += 1
+                    where = next((f'{f.filename.split("/stix2/")[-1]}:{f.name}' for f in reversed(frames) if '/stix2/' in f.filename and '/verif/' not in f.filename), '?')
+                    self.violation(f'{name}#a library operation the check relies on failed:{type(ex).__name__} in {where}', f'{case!r}: {type(ex).__name__}: {ex}',
+                                   {'bounded_check': name, 'case': repr(case), 'traceback': traceback.format_exc(limit=8)})
+                    if found >= stop_after: break
+                    continue
                 self.faults.append(f'bounded {name}: harness exception on {case!r}: {type(ex).__name__}: {ex}\n{traceback.format_exc(limit=4)}')
                 if len(self.faults) > 5: break
                 continue
